@@ -232,6 +232,12 @@ fn typed_table() -> Vec<(&'static str, fn(&mut Ctx, &[u8]))> {
         rt!("BTreeMap<Option<String>,u8>", BTreeMap<Option<String>, u8>),
         rt!("BTreeMap<char,u8>", BTreeMap<char, u8>),
         rt!("Box<[i8]>", Box<[i8]>),
+        rt!("BTreeMap<Id,String>", BTreeMap<Id, String>),
+        rt!("BTreeMap<Flag,u8>", BTreeMap<Flag, u8>),
+        rt!("BTreeMap<Name,Wide>", BTreeMap<Name, Wide>),
+        rt!("BTreeMap<Wide,Id>", BTreeMap<Wide, Id>),
+        rt!("(String,u128)", (String, u128)),
+        rt!("Vec<(String,i128)>", Vec<(String, i128)>),
     ]
 }
 
